@@ -50,9 +50,22 @@ Verdict(rec) ==
             ELSE IF r.ok THEN (IF [j \in 1..Len(r.vals) |-> r.vals[j].v] = rec.res.vals THEN "ok" ELSE "values-differ")
             ELSE IF ErrAdmitted(rec.res, r.errs, p, texts) THEN "ok" ELSE "error-not-admissible"
 
+\* C14 on recorded evaluations: per function, the recorded sequence of arguments is the predicted one
+LogOf(log, n) == SelectSeq(log, LAMBDA x : x.fn = n)
+LogAgrees(rec, p, r) ==
+  LET names == {r.log[i].fn : i \in 1..Len(r.log)} \cup {rec.log[i].fn : i \in 1..Len(rec.log)} IN
+  \A n \in names : [i \in 1..Len(LogOf(r.log, n)) |-> LogOf(r.log, n)[i].arg] = [i \in 1..Len(LogOf(rec.log, n)) |-> LogOf(rec.log, n)[i].arg]
+LogVerdict(rec) ==
+  LET full == ParseFull(rec.s, rec.cfg, rec.tabs)  m == full.out IN
+  IF m.cls # "ok" THEN "ok"
+  ELSE LET pn == m.ast  p == CleanPath(pn) IN
+       IF ~ExactSteps(pn.steps) \/ ~Determined(p, rec.doc) \/ ~FilterLogDet(p) THEN "ok"
+       ELSE IF LogAgrees(rec, p, Response(p, rec.doc)) THEN "ok" ELSE "call-log-differs"
+
 Check(rec) ==
-  LET v == Verdict(rec) IN
-  IF v = "ok" THEN TRUE
-  ELSE PrintT(ToJson([verdict |-> v, id |-> rec.id]))
+  LET v == Verdict(rec)
+      lv == IF v = "ok" THEN LogVerdict(rec) ELSE "ok" IN
+  IF v = "ok" /\ lv = "ok" THEN TRUE
+  ELSE PrintT(ToJson([verdict |-> IF v # "ok" THEN v ELSE lv, id |-> rec.id]))
 Inv == l > 0 => Check(Trace[l])
 =============================================================================
